@@ -14,7 +14,7 @@ func init() {
 	register("C17",
 		"Structural necessary conditions of C17 decided from /repo's SSA: (readonly) the only git sub-commands started are rev-list, cat-file, for-each-ref, rev-parse and config --list/--get, and no mutating os/io call exists in the module except the hidden --cpuprofile file; (confinement) the goroutine entry points (go statements and pipeline stage functions) capture only channels, contexts, iterator objects, the ticker/meter of their own package and slices they merely read — never the Graph, the HistorySize, the path resolver or a map — and the parent does not write what a started goroutine reads (one named exception); (determinism) no range over a map, clock, random source or environment read is reachable from the report renderers; (locks) every Lock is released on all non-panic exits and the class-level lock-order graph is acyclic apart from the child→parent record lock. Positive controls in /verif/controls must be reported on every run. Not decided: byte-identical output under every schedule, races inside go-pipe/os/exec/the runtime.",
 		[]string{"encoding/json emits map keys in sorted order", "git's plumbing commands listed are read-only", "class-level lock identities (one per mutex field)"},
-		ruleC17Readonly, ruleC17Confinement, ruleC17FreshBuffers, ruleC17Determinism, ruleC17Locks)
+		ruleC17Readonly, ruleC17Confinement, ruleC17FreshBuffers, ruleC17Determinism, ruleC17Locks, ruleC17Select, ruleC17MeterLocks)
 	register("C18",
 		"Structural necessary conditions of C18 decided from /repo's SSA: (stream) the progress meter is constructed on the stream that main passes os.Stderr for, never on the report stream; (lockset) every field of the meter is immutable after construction, accessed only through sync/atomic, or accessed with the meter's lock in the must-hold set; in the ticker goroutine every write is dominated, within one critical section, by the false edge of the identity test `p.ticker != ticker`, and Done replaces the ticker and writes the final line under the same lock; (bracket) along every path of the scanner Start and Done alternate, every Inc lies between them, a success return leaves no phase open, every phase loop increments exactly once per iteration and the blob phase increments exactly where it registers; Add has no caller. Not decided: ticker timing, equality of the printed number with the census on concrete runs.",
 		[]string{"sync.Mutex and sync/atomic semantics", "time.Ticker delivers ticks only on its own channel"},
@@ -1149,4 +1149,48 @@ func ruleC17FreshBuffers(c *Ctx) {
 	if n == 0 {
 		c.present("C17.confinement", "fresh-buffer", token.NoPos, "no goroutine sends byte slices to another")
 	}
+}
+
+// ruleC17Select: a `select` chooses at random among the cases that are
+// ready. The only selects the program may contain pair ONE data operation
+// with the cancellation signal (<-ctx.Done()); a select between two data
+// channels (results vs. "pipeline finished") makes the output depend on
+// scheduling: the last buffered result can be dropped.
+func ruleC17Select(c *Ctx) {
+	n := 0
+	for _, f := range c.ModFns {
+		allInstrs(f, func(in ssa.Instruction) {
+			sel, ok := in.(*ssa.Select)
+			if !ok {
+				return
+			}
+			n++
+			data := 0
+			for _, st := range sel.States {
+				isDone := false
+				if call, ok := c.resolve(st.Chan).(*ssa.Call); ok && call.Call.IsInvoke() && call.Call.Method.Name() == "Done" {
+					isDone = true
+				}
+				if !isDone {
+					data++
+				}
+			}
+			key := "select@" + fnName(f)
+			if data <= 1 {
+				c.hold("C17.determinism", key, sel.Pos(), "one data operation, otherwise only the cancellation signal")
+			} else {
+				c.violate("C17.determinism", key, sel.Pos(), fnName(f), fmt.Sprintf("a select waits on %d data channels: when several are ready the choice is random, so identical runs can report different results (e.g. the last reference dropped when the pipeline has already finished)", data))
+			}
+		})
+	}
+	c.Stats["selects"] += n
+}
+
+// ruleC17MeterLocks: the progress meter is the one object shared between
+// the scanning goroutine and a ticker goroutine; its lock discipline
+// (C18.lockset) is C17's race-freedom clause as well.
+func ruleC17MeterLocks(c *Ctx) {
+	c.RuleAlias = map[string]string{"C18.lockset": "C17.locks"}
+	defer func() { c.RuleAlias = nil }()
+	ruleC18Lockset(c)
 }
